@@ -398,6 +398,7 @@ def c11(tier, rng, fam='C11'):
                 b.step('ucall', c=99, pay='probe', to=H, hp=[ret(pay='pong')])
                 b.step('adv', ms=H + 1)
                 out.append(b.q().done())
+    out += lost_reset(fam, nmax)
     # a peer that sends more than expected: several replies to one unary call, extra stream envelopes
     for extra in (1, 2, 3, 4):
         b = B(fam, 'raw server sends %d replies to one unary call' % (extra + 1), rawsrv=True, ser=True)
@@ -850,6 +851,7 @@ def c14(tier, rng, fam='C14'):
     # late messages for a finished stream (some encode to zero bytes) must not leave anything registered
     out += late_messages(fam)
     out += unencodable_send(fam)
+    out += lost_reset(fam, 3)
     # a unary call given up (cancel / deadline) while its reply is still on its way - or never comes: nothing
     # stays registered for it, whether or not the reply turns up later
     for how in ('cancel', 'deadline'):
@@ -1307,4 +1309,32 @@ def unencodable_send(fam):
                     b.q()
                     b.step('ucall', c=2, pay='probe', hp=[ret(pay='fine')])
                     out.append(b.q().done())
+    return out
+
+
+def lost_reset(fam, nmax=4):
+    """a caller cancels with m responses unread and the transport refuses exactly the write of the stream's reset
+    (one failed POST; the connection stays up): the client still lets go of the stream - registration released, the
+    connection's read loop not held up by the responses nobody will fetch - and later calls are served"""
+    out = []
+    for kind in ('bidi', 'ss'):
+        for m in range(0, nmax + 1):
+            for others in ((0, 2) if m in (0, 3) else (0,)):
+                b = B(fam, '%s caller cancels with %d unread and the reset write is refused, %d bystanders' % (kind, m, others), ser=bool(m % 2))
+                for o in range(others):
+                    b.step('ucall', c=10 + o, pay='o%d' % o, hp=[])
+                hp = [dict(o='recv')] + [dict(o='send', pay='u%d' % i) for i in range(m)] + [dict(o='ctxwait'), ret(code=1, msg='gone')]
+                b.step('sopen', c=1, kind=kind, hp=hp)
+                b.step('send', c=1, pay='go')
+                b.q()
+                b.step('fault', what='cwrite1')
+                b.step('cancel', c=1)
+                b.q()
+                for o in range(others):
+                    b.step('hop', c=10 + o, h=ret(pay='p%d' % o))
+                b.step('ucall', c=99, pay='probe', to=H, hp=[ret(pay='pong')])
+                b.q()
+                b.step('sopen', c=98, kind='bidi', hp=[dict(o='echo')])
+                b.step('send', c=98, pay='x').step('recv', c=98).step('close', c=98).step('recv', c=98)
+                out.append(b.q().done())
     return out
